@@ -14,7 +14,7 @@ SPEC_PART = dict(
            "strictly increasing split list including []; every compressed non-empty state reachable by ANY legal outcome of the merge "
            "passes -- from new(k) or from a decoded image -- is such a view, and every history meeting its preconditions can be "
            "continued (progress); a digest the modelled reader returns is a legal history start provided its means are sorted and "
-           "everything lies inside [min,max] (the crate checks neither: images violating it are harness-only); the readers never "
+           "everything lies inside [min,max] (DECLARED GAP, second review item 9: the crate's reader checks neither, so 'an Ok value is usable' is proved only under that extra boolean check ordered_b; images violating it, or with infinite min/max, are accepted and only exercised by the harness); the readers never "
            "reach the modelled panic site and the round trip of a serializable state is Ok (Props/C17_tdigest.v); tie: valid histories at the "
            "documented extremes -- k in {10, 11, 29, 30, 31, 32767, 32768, 40000, 65535} (2 * k past u16: fixed defect "
            "tdigest-C17-two-k-u16-overflow), empty and single-value digests, empty split lists, q = 0 and 1, NaN / infinite updates, "
